@@ -209,8 +209,21 @@ def minor_case(cid, gene, coverage, major_sol, result, enumerate_all=True, plant
                            "added": sorted(var_idx.get((m.pos, m.op), 0) for m in sa.added),
                            "missing": sorted(var_idx.get((m.pos, m.op), 0) for m in sa.missing)})
         res.append({"score": fix(s.score), "copies": copies})
+    # read-phase evidence: identical fragment patterns over the considered sites (>= 2 sites), as the stage groups them
+    phases = []
+    sam = getattr(coverage, "sam", None)
+    if coverage.profile.phase and sam is not None and getattr(sam, "phases", None):
+        import collections as _c
+
+        modes = _c.Counter()
+        for rv in sam.phases.values():
+            c_ = tuple(sorted((k, v) for k, v in rv.items() if k in site_idx))
+            if len(c_) > 1:
+                modes[c_] += 1
+        for c_, n in sorted(modes.items()):
+            phases.append({"cnt": n, "at": [{"si": site_idx[k], "var": var_idx.get((k, v), 0)} for k, v in c_]})
     return {
-        "id": cid, "p": params(coverage.profile), "sites": sites,
+        "id": cid, "p": params(coverage.profile), "sites": sites, "phases": phases,
         "vars": [{"si": site_idx[p], "ins": op.startswith("ins"), "core": gene.mutations.get((p, op), (None,))[0] is not None,
                   "pos": p - origin, "op": op} for p, op in vars_],
         "cfgs": cfgs, "struct": struct, "majors": majors, "minors": minors, "call": call,
